@@ -416,6 +416,7 @@ pub fn report_geometry(ctx: &mut Ctx, case: &StreamCase, g: &crate::stream::GeoV
         cur.bytes.clear();
     }
     if !ctx.replay && fails(&cur) {
+        ctx.violation_pending(&base_key(&cur, &g.what), json!({"what": g.what, "state": g.detail.clone(), "emu": cur.emu, "size": [cur.w, cur.h]}), serde_json::to_value(&cur).unwrap());
         let p = shrink_list(&cur.prefix.clone(), 150, |cand| {
             let mut c = cur.clone();
             c.prefix = cand.to_vec();
